@@ -3,8 +3,8 @@ KeyArray, ToString, Sort and a few extras.  Everything is produced from the smal
 @K@ @NX@ @EN@ @SRT@ are substituted by gen.py afterwards."""
 
 HDR = '//@   prop C09\n//@   arith int\n'
-OKR = '@P@seq(result) && @P@lnkn(result) && @P@lnkp(result) && @P@tab0(result) && @P@tab1(result) && @P@cel0(result) && @P@cel1(result) && @P@ent0(result) && @P@ent1(result) && @P@inl(result) && result.count == @P@n(result)'
-OKT = '@P@seq(this) && @P@lnkn(this) && @P@lnkp(this) && @P@tab0(this) && @P@tab1(this) && @P@cel0(this) && @P@cel1(this) && @P@ent0(this) && @P@ent1(this) && @P@inl(this) && this.count == @P@n(this)'
+OKR = '@P@seq(result) && @P@lnkn(result) && @P@lnkp(result) && @P@tab0(result) && @P@tab1(result) && @P@cel0(result) && @P@cel1(result) && @P@ent0a(result) && @P@ent0b(result) && @P@ent0c(result) && @P@ent1(result) && @P@inl(result) && result.count == @P@n(result)'
+OKT = '@P@seq(this) && @P@lnkn(this) && @P@lnkp(this) && @P@tab0(this) && @P@tab1(this) && @P@cel0(this) && @P@cel1(this) && @P@ent0a(this) && @P@ent0b(this) && @P@ent0c(this) && @P@ent1(this) && @P@inl(this) && this.count == @P@n(this)'
 MORE = 'this.entry != nil && this.parent.header != this.entry'
 
 
@@ -215,7 +215,7 @@ def placeholder(meth, params, res):
 
 
 REQ_OK = ''.join('//@   requires %s\n' % p for p in ('@P@seq(this)', '@P@lnkn(this)', '@P@lnkp(this)', '@P@tab0(this)', '@P@tab1(this)',
-                                                     '@P@cel0(this)', '@P@cel1(this)', '@P@ent0(this)', '@P@ent1(this)', '@P@inl(this)',
+                                                     '@P@cel0(this)', '@P@cel1(this)', '@P@ent0a(this)', '@P@ent0b(this)', '@P@ent0c(this)', '@P@ent1(this)', '@P@inl(this)',
                                                      'this.count == @P@n(this)'))
 
 
@@ -232,7 +232,7 @@ def contains_value(guard=''):
             '//@   loop 1 invariant forall x *@E@ :: { this.in[x] } x != nil && this.in[x] ==> 0 <= @P@bkt(this, x) && @P@bkt(this, x) < len(tab) && 0 <= this.bh[x] && this.bh[x] < this.blen[@P@bkt(this, x)] && this.cell[@P@bkt(this, x)][this.bh[x]] == x\n'
             '//@   loop 1 invariant forall b int, h int :: { this.cell[b][h] } i < b && b < len(tab) && 0 <= h && h < this.blen[b] ==> !(this.cell[b][h].value == value)\n'
             '//@   loop 1 decreases i + 1\n'
-            '//@   loop 2 invariant 0 <= i && i < len(tab) && (e == nil || (this.in[e] && @P@bkt(this, e) == i))\n'
+            '//@   loop 2 invariant 0 <= i && i < len(tab) && (e == nil || (this.in[e] && @P@bkt(this, e) == i && 0 <= this.bh[e] && this.bh[e] < this.blen[i] && this.cell[i][this.bh[e]] == e))\n'
             '//@   loop 2 invariant forall h int :: { this.cell[i][h] } ite(e == nil, -1, this.bh[e]) < h && h < this.blen[i] ==> !(this.cell[i][h].value == value)\n'
             '//@   loop 2 decreases ite(e == nil, 0, this.bh[e] + 1)\n'
             '//@   nopanic' + guard)
